@@ -16,7 +16,7 @@ check validates on every generated name, together with the case-insensitivity la
   C10_quote / C10_quote_unescape   every name (any characters but NUL) written as a quoted identifier is read
                           by the engine's scanner as ONE identifier token carrying exactly that name
 Named hypotheses (each with a counterexample theorem whose witness is replayed on the real code):
-  H_reselect H_toDF H_groupAgg H_joinRight H_joinKeyQuoted H_quoteAgree H_collectReparse H_orderByReserved H_asciiFold
+  H_reselect H_toDF H_groupAgg H_joinRight H_joinKeyQuoted H_unionMissing H_quoteAgree H_collectReparse H_orderByReserved H_asciiFold
 -/
 import SqlframeModel.Lemmas.C10Steps
 import SqlframeModel.Lemmas.C09Lex
@@ -174,6 +174,12 @@ theorem C10_cex_groupAgg (h : groupAggRecordsDisplay = false) :
 theorem C10_cex_joinRight (h : joinKeepsRightDisplay = false) :
     columns C10.F0 (nstep C10.F0 (create C10.F0 ["Kx", "v"]) (.joinUsing "kx" ["KX", "Ww"])) = ["Kx", "v", "ww"] := by
   simp only [nstep, h]; decide
+
+/-- H_unionMissing: `unionByName(other['kX','Ww'], allowMissingColumns=True)` shows kx / v / ww -/
+theorem C10_cex_unionMissing (h : unionByNameReselects = true) :
+    columns C10.F0 (nstep C10.F0 (create C10.F0 ["Kx", "v"]) (.unionByName ["kX", "Ww"] true)) = ["kx", "v", "ww"] ∧
+    specStep C10.F0 ["Kx", "v"] (.unionByName ["kX", "Ww"] true) = ["Kx", "v", "Ww"] := by
+  simp only [nstep, unionStep, h]; decide
 
 /-- H_quoteAgree: the schema view of a column named `1x` -/
 theorem C10_cex_quoteAgree :
